@@ -236,13 +236,15 @@ def compare_case(R, p, dtype, cls, args, deep=False):
             R.violation(f"C13:shape:{name}", f"{name}: output {k} shapes {c.shape} vs {i.shape}", case)
             return
         atol = atol0
-        if dtype == "float32" and name in SLOPE_OUTPUT and k == SLOPE_OUTPUT[name]:
+        if dtype == "float32" and name in SLOPE_OUTPUT and (k == SLOPE_OUTPUT[name] or (name == "mk_sens_slope" and k == 1)):
             # Sen's slope is a median of differences of the data: single precision of the *data* (the two middle slopes
             # may cancel, e.g. (-4.25 + 4.23) / 2), i.e. an absolute allowance of a few float32 ulps of max|x|
             xin = np.asarray(args[0], dtype=np.float64)
             xin = xin[np.isfinite(xin)]
             if xin.size:
                 atol = max(atol0, 8 * 2.0 ** -23 * float(np.max(np.abs(xin))))
+                if name == "mk_sens_slope" and k == 1:  # intercept = median(x) - (n - 1) / 2 * slope inherits (n - 1) / 2 slope errors
+                    atol *= 1 + xin.size / 2
         if c.dtype.kind == "f" or i.dtype.kind == "f":
             if not close(c, i, rtol, atol):
                 if name in SELECTORS and c.size == max(1, c.size) and k >= 1:
